@@ -35,3 +35,30 @@ Fixpoint retry (fuel : nat) (g : graph) (done todo : list N) : list N * list N :
   end.
 
 Definition process (g : graph) (todo : list N) : list N * list N := retry (S (length todo)) g [] todo.
+
+(* ------------------------------------------------------------------ the loop of _process_models, with its "Recursive allOf reference" test
+   A model that cannot be processed yet reports the reference it is waiting for; when `self n r` says that reference is the model itself the
+   model is finalised as an error at once and never retried.  The code as it is compares the WHOLE last path segment with the class name
+   (self = N.eqb); a sloppier test (plain string suffix: Cat vs WildCat) is the parameter `self`. *)
+Definition first_missing (g : graph) (done : list N) (n : N) : option N := find (fun d => negb (memn d done)) (deps g n).
+
+Fixpoint round_rec (self : N -> N -> bool) (g : graph) (done todo : list N) : list N * list N :=
+  match todo with
+  | [] => (done, [])
+  | n :: t => match first_missing g done n with
+              | None => round_rec self g (n :: done) t
+              | Some r => let res := round_rec self g done t in
+                          if self n r then res else (fst res, n :: snd res)
+              end
+  end.
+
+(* progress = some model was processed in the round (still_making_progress is only set on success) *)
+Fixpoint retry_rec (self : N -> N -> bool) (fuel : nat) (g : graph) (done todo : list N) : list N * list N :=
+  match fuel with
+  | O => (done, todo)
+  | S f => let r := round_rec self g done todo in
+           if Nat.eqb (length (fst r)) (length done) then r else retry_rec self f g (fst r) (snd r)
+  end.
+
+Definition process_rec (self : N -> N -> bool) (g : graph) (todo : list N) : list N * list N :=
+  retry_rec self (S (length todo)) g [] todo.
